@@ -35,6 +35,10 @@ Hdr(h) == [treasury |-> T3(h.treasury), graveyard |-> T3(h.graveyard), unpaid |-
 ObsUtxo(st) == {[o |-> x.o, owner |-> x.owner, amt |-> LimbNorm(T3(x.amt)), bh |-> x.bh, kind |-> x.kind]
                  : x \in {y \in Rng(st.utxo) : y.sp}}
 
+(* edits of a block that keep its signed header: the transaction list or the signature is changed *)
+C06Edits == {"drop_last_tx", "dup_first_tx", "swap_txs", "tamper_tx_data", "zero_root_drop_tx", "resign_other_key",
+             "bump_timestamp_nosign", "drop_all_txs", "flip_block_sig"}
+
 NoSample == [bf |-> <<0, 0, 0>>, hb |-> <<0, 0, 0>>, dt |-> <<4194303, 0, 0>>, needed |-> <<0, 0, 0>>]
 
 Bad(e, prop, why) == [pos |-> l, scn |-> e.scn, i |-> e.i, prop |-> prop, why |-> why, res |-> e.res]
@@ -58,7 +62,7 @@ IsPanic(res) == Len(res) >= 6 /\ SubSeq(res, 1, 6) = "Panic:"
 BlockChecks(e, BB, UU) ==
     LET lab == e.label
         G == env.g
-        T == [tip |-> e.st.tip, tiph |-> e.st.tiph, utxo |-> ObsUtxo(e.st)]
+        T == [tip |-> IF e.st.tiph = 0 THEN "" ELSE e.st.tip, tiph |-> e.st.tiph, utxo |-> ObsUtxo(e.st)]
         adopted == e.res = "AddedLc" /\ T.tip = lab
         \* a block that was wound onto the chain before the node aborted has been accepted as well
         wound_then_panic == IsPanic(e.res) /\ T.tip = lab /\ obs.tip # lab
@@ -109,10 +113,12 @@ BlockChecks(e, BB, UU) ==
                      THEN {Bad(e, "C07", "honest-block-rejected")} ELSE {})
         c13r == IF honest /\ e.res # "AddedLc" /\ e.h > G + 1 /\ Leaving(pre(lab), e.h, G) # {}
                 THEN {Bad(e, "C13", "honest-block-that-rebroadcasts-rejected")} ELSE {}
-        c06 == IF e.x.bedit \in {"drop_last_tx", "dup_first_tx", "swap_txs", "tamper_tx_data",
-                                 "zero_root_drop_tx", "resign_other_key", "bump_timestamp_nosign"}
-                  /\ adopted
-               THEN {Bad(e, "C06", "edited-block-accepted:" \o e.x.bedit)} ELSE {}
+        c06 == (IF adopted
+                THEN {Bad(e, "C06", "edited-block-accepted:" \o BB[x].bedit \o " in " \o x)
+                        : x \in {y \in Rng(wound) : BB[y].bedit \in C06Edits}}
+                ELSE {})
+               \cup (IF e.x.tag = "genesis-edit" /\ e.x.bedit \in C06Edits /\ e.res = "AddedLc"
+                     THEN {Bad(e, "C06", "edited-block-accepted:" \o e.x.bedit \o " as the first block")} ELSE {})
         pan == IF IsPanic(e.res) THEN {Bad(e, "C11", IF env.detached THEN "panic-on-chain-without-known-ancestors" ELSE "panic")} ELSE {}
         \* the work the node computed for the block, against the definition (valid paths only)
         c08k == IF e.x.bedit = "" /\ \A i \in DOMAIN BB[lab].txs : BB[lab].txs[i].pathok
@@ -184,12 +190,12 @@ OnReset(e) ==
 OnBlock(e) ==
     LET lab == e.label
         rec == [parent |-> e.parent, h |-> e.h, txs |-> [i \in DOMAIN e.txs |-> Tx(e.txs[i])], gt |-> e.gt,
-                hdr |-> Hdr(e.hdr), creator |-> e.creator, gtkey |-> e.gtkey, needed |-> T3(e.hdr.needed)]
+                hdr |-> Hdr(e.hdr), bedit |-> e.x.bedit, creator |-> e.creator, gtkey |-> e.gtkey, needed |-> T3(e.hdr.needed)]
         BB == IF lab \in DOMAIN B THEN B ELSE (lab :> rec) @@ B
         parentU == IF e.parent = "" THEN {} ELSE IF e.parent \in DOMAIN U THEN U[e.parent] ELSE {}
         known == e.parent = "" \/ e.parent \in DOMAIN U
         UU == IF lab \in DOMAIN U \/ ~known THEN U ELSE (lab :> ApplyTxs(parentU, rec.txs, e.h)) @@ U
-        T == [tip |-> e.st.tip, tiph |-> e.st.tiph, utxo |-> ObsUtxo(e.st)]
+        T == [tip |-> IF e.st.tiph = 0 THEN "" ELSE e.st.tip, tiph |-> e.st.tiph, utxo |-> ObsUtxo(e.st)]
         isreorg == e.res = "AddedLc" /\ obs.tip # "" /\ e.parent # obs.tip
         confirmed == IF e.res = "AddedLc" THEN {rec.txs[i].id : i \in DOMAIN rec.txs} ELSE {}
         P2 == [id \in (DOMAIN pool \cap Rng(e.st.pool)) |-> pool[id]]
